@@ -412,11 +412,28 @@ func (w *World) Setup(sc *Scenario) (target *argmapper.Func, args []argmapper.Ar
 // Args builds the option list for sc (realizing converters on first use).
 func (w *World) Args(sc *Scenario) ([]argmapper.Arg, error) {
 	var args []argmapper.Arg
+	var joined []interface{}
+	joinAt := -1
 	for _, in := range sc.Inputs {
 		w.mu.Lock()
 		w.Ledger[in.Tok] = Origin{Input: true, L: in.L, Dyn: in.L.Type}
 		w.mu.Unlock()
+		if sc.JoinTyped && !in.L.Named() && in.L.Sub == "" {
+			if joinAt < 0 {
+				joinAt = len(args)
+				args = append(args, nil) // placeholder
+				joined = append(joined, nil)
+			}
+			joined = append(joined, MakeValue(in.L.Type, in.Tok).Interface())
+			if len(joined)%3 == 0 {
+				joined = append(joined, nil)
+			}
+			continue
+		}
 		args = append(args, InputArg(in))
+	}
+	if joinAt >= 0 {
+		args[joinAt] = argmapper.Typed(joined...)
 	}
 	for i := range sc.Convs {
 		fs := &sc.Convs[i]
@@ -475,7 +492,7 @@ func (w *World) Args(sc *Scenario) ([]argmapper.Arg, error) {
 
 // GenFuncID is the spec id given to the converter emitted by generator g for
 // the n-th time.
-func GenFuncID(gen, n int) int { return 1000 + gen*100 + n }
+func GenFuncID(gen, n int) int { return 1000000*gen + 1000 + n }
 
 // MakeGen realizes a generator spec.
 func (w *World) MakeGen(gs *GenSpec) argmapper.ConverterGenFunc {
@@ -494,7 +511,7 @@ func (w *World) MakeGen(gs *GenSpec) argmapper.ConverterGenFunc {
 			return nil, &GenErr{Gen: gs.ID}
 		}
 		fs := &FuncSpec{
-			ID:      GenFuncID(gs.ID, n%100),
+			ID:      GenFuncID(gs.ID, n),
 			In:      []Label{{Type: gs.From, Dyn: gs.From, Sub: v.Subtype}},
 			InForm:  FormStruct,
 			Out:     []Label{{Type: gs.To, Dyn: gs.To}},
